@@ -48,12 +48,18 @@ Inductive iterable := OneShot (vs : list elt) | LiveIt.
 Definition materialise (it : iterable) (s : cst) : list elt :=
   match it with OneShot vs => vs | LiveIt => items s end.
 
+(* extend(items) with a generator: consumed ITEM BY ITEM (4de7ec8: only a list or tuple is copied first), so a generator that reads the
+   field sees what was added so far *)
+Definition extend_lazy_model (cands : list elt) (s : cst) : cst :=
+  fold_left (fun s c => if memb c (items s) then s else add_item KList s c) cands s.
+
 Definition step (k : kind) (o : op) (s : cst) : cst * bool :=
   match k, o with
   | _, Assign vs => (desc_set k (Fresh vs) s, false)
   | _, AssignSelf => (desc_set k Live s, false)
   | _, IAug vs =>               (* __iadd__ / __ior__ = extend / update (records the new elements), then __set__ with the live container *)
       (desc_set k Live (fold_left (add_item k) vs s), false)
+  | KList, ExtendLazyNew cands => (extend_lazy_model cands s, false)
   | _, IAugAlias vs =>          (* the in-place operator through another reference: __iadd__ / __ior__ only, no __set__ follows *)
       (fold_left (add_item k) vs s, false)
   | KList, Append x => (add_item KList s x, false)
@@ -176,9 +182,8 @@ Definition cstep_old (o : cop) (s : cshared) : cshared :=
 Definition clone_init (vs0 : list elt) : cshared :=
   {| sitems := vs0; recs := fun w => match w with WP => vs0 | WQ => [] end; bound := WP |}.
 
-(* ---- outside the proved fragment (known finding C16-o): extend / += with a LAZY iterable that reads the field ------------------
-   MonitoredList.extend copies its argument first (`for item in list(items)`), so a generator such as
-   (v for v in cands if v not in x.f) is evaluated completely against the OLD contents. *)
+(* before 4de7ec8 MonitoredList.extend copied every argument first (`for item in list(items)`), so a generator such as
+   (v for v in cands if v not in x.f) was evaluated completely against the OLD contents (regression lemma old_extend_copy_first) *)
 Definition extend_copy_first_new (cands : list elt) (s : cst) : cst :=
   fold_left (add_item KList) (filter (fun c => negb (memb c (items s))) cands) s.
 
@@ -195,5 +200,3 @@ Definition setitem_then_infer_out (i : Z) (x : elt) (inf l : list elt) : sx :=
 Definition clone_out (vs0 : list elt) (ops : list cop) : sx :=
   let s := fold_left (fun s o => cstep o s) ops (clone_init vs0) in
   SL [elts_sx (sitems s); elts_sx (recs s WP); elts_sx (recs s WQ)].
-Definition extend_lazy_out (cands vs0 : list elt) : sx := elts_sx (items (extend_copy_first_new cands (init KList vs0))).
-Definition extend_lazy_spec_out (cands vs0 : list elt) : sx := elts_sx (extend_lazy_new cands vs0).
